@@ -4,6 +4,7 @@ import (
 	"fmt"
 	"math/big"
 	"math/rand"
+	"os"
 	"strconv"
 )
 
@@ -11,20 +12,20 @@ import (
 // to choose meaningful parameters, and every choice comes from r. The produced intents are recorded;
 // replay executes the recorded list and never calls Gen.
 type Gen struct {
-	R       *rand.Rand
-	W       *World
-	Profile string
-	Weights map[string]int
-	FaultP  float64 // probability that a tx-producing intent carries a transport fault
-	Out     []Intent
-	byzSet  map[int]bool
+	R             *rand.Rand
+	W             *World
+	Profile       string
+	Weights       map[string]int
+	FaultP        float64 // probability that a tx-producing intent carries a transport fault
+	Out           []Intent
+	byzSet        map[int]bool
 	EveryBoundary bool
 }
 
 func weightsFor(profile string) map[string]int {
 	base := map[string]int{"block": 22, "user_send": 12, "user_cancel": 3, "req_batch": 3, "ext_deposit": 8,
 		"poll_all": 10, "orch_poll": 6, "sign_all": 7, "orch_sign": 3, "relay": 10, "stall": 1, "ext_tick": 2,
-		"stake": 2, "oracle_round": 1, "byz_claim": 2, "node_restart": 1, "clock_jump": 2, "batch_race": 2, "gov": 1}
+		"stake": 2, "oracle_round": 1, "byz_claim": 2, "byz_first": 2, "node_restart": 1, "clock_jump": 2, "batch_race": 2, "gov": 1}
 	switch profile {
 	case "C05adv":
 		return map[string]int{"block": 20, "adv_event": 14, "user_send": 10, "req_batch": 4, "user_cancel": 2, "clock_jump": 2, "sign_all": 1, "huge_fees": 3, "oracle_round": 4, "gov": 2}
@@ -34,6 +35,9 @@ func weightsFor(profile string) map[string]int {
 		base["batch_race"] = 6
 		base["stake"] = 5
 	case "C04", "C10", "C12", "C13":
+		if profile == "C10" {
+			base["size_burst"] = 2
+		}
 		base["cancel_pair"] = 5
 		base["batch_race"] = 7
 		base["user_send"] = 20
@@ -371,6 +375,41 @@ func (g *Gen) Step() {
 				g.emit(Intent{T: "byz_claim", V: v, Chain: ch, Pick: g.R.Intn(16), Net: ""})
 			}
 		}
+	case "byz_first":
+		// a validator that kept up honestly so far reports the NEWEST event first, wrong in one field, and the
+		// honest majority reports the true event right after it
+		v := g.R.Intn(len(w.Vals))
+		var tot int64
+		for _, s := range w.Cfg.Stakes {
+			tot += s
+		}
+		if len(g.byzSet) == 0 && w.Cfg.Stakes[v]*3 < tot {
+			g.byzSet[v] = true
+		}
+		if !g.byzSet[v] {
+			break
+		}
+		t := g.token()
+		ch := t.Chain
+		g.emit(Intent{T: "orch_poll", V: v, Chain: ch, N: 10})
+		g.emit(Intent{T: "block", Dt: 5, N: 1})
+		switch g.R.Intn(4) {
+		case 0:
+			g.emit(Intent{T: "relay", Chain: ch, Op: "valset", Pick: g.R.Intn(4)})
+		case 1:
+			g.emit(Intent{T: "relay", Chain: ch, Op: "batch", Pick: g.R.Intn(8), Gas: "1000"})
+		default:
+			g.emit(Intent{T: "ext_deposit", U: g.R.Intn(len(w.Users)), Chain: ch, Chain2: "hub", Denom: t.Denom, Amt: g.amount(big.NewInt(1000000)), Fee: "0"})
+		}
+		muts := []string{"height_hi", "height_hi", "height_hi", "tx_hash", "fee_payer", "member_power_hi", "amount", "receiver", "sender", "batch_nonce_hi", "set_nonce_hi", "fee", "coin"}
+		g.emit(Intent{T: "byz_claim", V: v, Chain: ch, Mut: muts[g.R.Intn(len(muts))], Net: "front"})
+		for o := range w.Vals {
+			if o != v {
+				g.emit(Intent{T: "orch_poll", V: o, Chain: ch, N: 10})
+			}
+		}
+		g.emit(Intent{T: "block", Dt: 5, N: 2})
+		w.St.Probe("byz-first-scenario")
 	case "node_restart":
 		if g.FaultP > 0 {
 			if g.R.Intn(2) == 0 {
@@ -387,7 +426,7 @@ func (g *Gen) Step() {
 		}
 		g.emit(in)
 	case "set_keys":
-		ops := []string{"", "", "fresh", "fresh", "xchain", "xchain", "steal_ext", "steal_ext_key", "steal_ext_key", "steal_orch", "stale", "future", "wrong_key", "replay", "unknown_val", "other_signer", "rotate_orch", "rotate_orch_badsig"}
+		ops := []string{"", "", "fresh", "fresh", "xchain", "xchain", "steal_ext", "steal_ext_key", "steal_ext_key", "steal_orch", "stale", "future", "wrong_key", "replay", "unknown_val", "other_signer", "rotate_orch", "rotate_orch_badsig", "share_orch", "share_orch", "self_orch"}
 		chains := append(append([]string{}, Chains...), "tron")
 		in := Intent{T: "set_keys", V: g.R.Intn(len(w.Vals)), Chain: chains[g.R.Intn(len(chains))], Op: ops[g.R.Intn(len(ops))], Pick: g.R.Intn(len(w.Vals)), Net: g.net()}
 		if g.R.Intn(8) == 0 {
@@ -399,14 +438,19 @@ func (g *Gen) Step() {
 	case "adv_event":
 		g.advEvent()
 	case "size_burst":
-		g.sizeBurst()
+		if g.R.Intn(2) == 0 {
+			g.sizeBurstMulti()
+		} else {
+			g.sizeBurst()
+		}
 	case "batch_race":
 		g.batchRace()
 	case "gov":
 		// a proposal, yes votes of every validator, then the voting period passes
 		t := g.token()
-		if (g.Profile == "C05" || g.Profile == "C05adv" || g.Profile == "C05size") && g.R.Intn(2) == 0 {
-			// only where nothing but block processing is judged: a delisted token changes what every other law means
+		c05 := g.Profile == "C05" || g.Profile == "C05adv" || g.Profile == "C05size"
+		if (c05 && g.R.Intn(2) == 0) || ((g.Profile == "C01" || g.Profile == "C04" || os.Getenv("MHUBSIM_DELIST") != "") && g.R.Intn(4) == 0) {
+			// a token leaves the list while transfers of it are pending (refunds to its chain can no longer be created)
 			g.emit(Intent{T: "gov", Op: "delist", V: g.R.Intn(len(w.Vals)), Pick: g.R.Intn(9)})
 		} else if g.R.Intn(2) == 0 {
 			in := Intent{T: "gov", Op: "cold", V: g.R.Intn(len(w.Vals)), Chain: t.Chain, Denom: t.Denom, Amt: g.amount(new(big.Int).Quo(bigOf(w.Cfg.UserFunds), big.NewInt(10)))}
@@ -583,6 +627,9 @@ func (g *Gen) holderVals() []string {
 func (g *Gen) oracleRound() {
 	base := g.priceVals()
 	hv := g.holderVals()
+	// in some rounds everybody reports holders (a holder quorum needs two thirds on the identical list; lists
+	// are sets, so some validators send the same entries in another order)
+	holdersAll := g.R.Intn(3) == 0
 	for v := range g.W.Vals {
 		if g.R.Intn(6) == 0 {
 			continue
@@ -592,9 +639,9 @@ func (g *Gen) oracleRound() {
 			vals[g.R.Intn(len(vals))] = fmt.Sprintf("%d", 1+g.R.Intn(5000))
 		}
 		g.emit(Intent{T: "oracle_claim", V: v, Op: "price", Vals: vals, Net: g.net()})
-		if g.R.Intn(2) == 0 {
+		if holdersAll || g.R.Intn(2) == 0 {
 			h := append([]string(nil), hv...)
-			if g.R.Intn(4) == 0 {
+			if g.R.Intn(3) == 0 {
 				g.R.Shuffle(len(h), func(i, j int) { h[i], h[j] = h[j], h[i] })
 			}
 			if g.R.Intn(5) == 0 {
@@ -649,6 +696,41 @@ func (g *Gen) advEvent() {
 		in.Mut = []string{"", "unknown", "0x00000000000000000000000000000000000000b1", "nothex"}[g.R.Intn(4)]
 	}
 	g.emit(in)
+}
+
+// sizeBurstMulti: pools of about the batch size for SEVERAL tokens of one chain within one batching window
+// (the cap is per batch: what one token's batch takes must not change what the next token's batch may take).
+func (g *Gen) sizeBurstMulti() {
+	w := g.W
+	byChain := map[string][]TokenCfg{}
+	for _, t := range w.Cfg.Tokens {
+		byChain[t.Chain] = append(byChain[t.Chain], t)
+	}
+	var chains []string
+	for _, ch := range sortedKeys(byChain) {
+		if len(byChain[ch]) >= 2 {
+			chains = append(chains, ch)
+		}
+	}
+	if len(chains) == 0 {
+		g.sizeBurst()
+		return
+	}
+	toks := byChain[chains[g.R.Intn(len(chains))]]
+	txi := 0
+	for _, t := range toks {
+		n := []int{60, 100, 101, 105}[g.R.Intn(4)]
+		for left := n; left > 0; {
+			k := 5
+			if left < k {
+				k = left
+			}
+			left -= k
+			g.emit(Intent{T: "user_send", U: txi % len(w.Users), Chain: t.Chain, Denom: t.Denom, Amt: "1000", Fee: strconv.Itoa(g.R.Intn(50)), N: k, Net: "seq" + strconv.Itoa(txi/len(w.Users))})
+			txi++
+		}
+	}
+	w.St.Probe("size_burst_multi_token")
 }
 
 // sizeBurst: many transfers of one token in one block (pool and batch sizes beyond 64 / 100).
